@@ -59,6 +59,36 @@ def expected(kind):
     return _EXPECT[kind]
 
 
+def _query(t, kind):
+    """every public non-mutating use of a transform other than apply; results are discarded (their correctness is C03-C05's
+    business) - what matters here is that the transform is the same function afterwards"""
+    from ..core import from_library
+
+    try:
+        if hasattr(t, "pseudoinverse") and kind not in ("WithDimsList", "WithDimsSlice"):
+            inv = t.pseudoinverse()
+            if hasattr(inv, "pseudoinverse"):
+                inv.pseudoinverse()
+        c = t.copy()
+        for name in ("n_dims", "n_dims_output", "has_true_inverse", "n_parameters", "n_points", "n_tris"):
+            getattr(t, name, None)
+        if hasattr(t, "as_vector"):
+            try:
+                t.as_vector()
+            except NotImplementedError:
+                pass
+        if hasattr(t, "aligned_source"):
+            t.aligned_source()
+            t.alignment_error()
+        str(t)
+        repr(c)
+    except Exception as ex:
+        if not from_library(ex):
+            raise
+        return "a read-only use of the transform (pseudoinverse / copy / parameters / properties) raised %s: %s" % (type(ex).__name__, str(ex)[:160])
+    return None
+
+
 def replay(args):
     from menpo.shape import PointCloud
     from menpo.transform.piecewiseaffine.base import TriangleContainmentError
@@ -72,7 +102,14 @@ def replay(args):
         if ev["op"] == "write":
             arrays[a][...] = VALS[v]
             continue
+        if ev["op"] == "query":
+            bad = _query(t, kind)
+            if bad:
+                return {"sig": None, "step": k, "kind": kind, "op": "query", "what": bad}
+            continue
         b = ev["batch"] or None
+        if b and k % 2:
+            b = np.int64(b)      # a batch size computed with numpy is a batch size
         keep = arrays[a].copy()
         try:
             x = arrays[a] if ev["op"] == "apply" else PointCloud(arrays[a], copy=False)
